@@ -148,6 +148,10 @@ func prepare(c *gj5s.Case) *bundleCase {
 	b := c.P.Bundle()
 	bc := &bundleCase{c: c, b: b}
 	for _, f := range c.P.Files {
+		if f.IsDep {
+			bc.src += "// dependency " + f.OutPath() + "\n" + f.Render() + "\n"
+			continue
+		}
 		bc.files = append(bc.files, f.Path())
 		bc.src += "// " + f.Path() + "\n" + b.Files[f.Path()] + "\n"
 	}
@@ -157,7 +161,11 @@ func prepare(c *gj5s.Case) *bundleCase {
 
 func (bc *bundleCase) fresh() *gj5s.Bundle {
 	nb := gj5s.NewBundle()
+	nb.Deps, nb.ImageDeps = bc.b.Deps, bc.b.ImageDeps
 	for _, f := range bc.c.P.Files {
+		if f.IsDep {
+			continue
+		}
 		if f.ListedOnly {
 			nb.Files[f.Path()] = bc.b.Files[f.Path()]
 			continue
@@ -181,7 +189,7 @@ func (bc *bundleCase) canonical() (outputs, error) {
 
 func allBundles() []*bundleCase {
 	var out []*bundleCase
-	for _, c := range append(gj5s.DeterminismBundles(), gj5s.StaleGeneratedBundles()...) {
+	for _, c := range append(append(gj5s.DeterminismBundles(), gj5s.StaleGeneratedBundles()...), gj5s.SiblingDependencyBundles()...) {
 		out = append(out, prepare(c))
 	}
 	// hand-written proto files in the mix
